@@ -202,6 +202,28 @@ def run(F, R, tier):
         ok = i.get("k") == "If" and peel(i["cond"]).get("lid") == cs["body"]["params"][3].get("lid") and [peel(x).get("v") for x in (peel(i["then"]).get("expr", i["then"]), peel(i["else"]).get("expr", i["else"]))] == [0, 1]
     R.ob("C08-P", "padding is 0 for quoteless and 1 for quoted specifiers", ok, "padding definition changed", cs["file"])
 
+    fp_ = F.body("graph::Position::from_source_pos")
+    lit = [n for n in fp_["_nodes"] if n["k"] == "Struct" and n.get("adt") == "graph::Position"]
+    ok = len(lit) == 1
+    if ok:
+        f = {x["name"]: peel_value(x["e"]) for x in lit[0]["fields"]}
+        def from_lc(e, fld):
+            return e.get("k") == "Field" and e["field"] == fld and any(y.get("k") == "MethodCall" and y["name"] == "line_and_column_index" for z in through_locals(peel_value(e["e"])) for y in walk(z))
+        ok = from_lc(f["line"], "line_index") and from_lc(f["character"], "column_index")
+    R.ob("C08-P", "a Position is the (line, column) pair computed by the text info (character based, not byte offsets)", ok,
+         "Position::from_source_pos no longer takes line / character from SourceTextInfo::line_and_column_index: with non-ASCII text before the specifier on its line every reported range is shifted", fp_["file"])
+    # JSDoc `{ ... import("x") ... }`: the scan from `{` to `import` stops at a closing brace
+    pj = F.body("ast::parse_jsdoc_dynamic_import")
+    tags = [n for n in pj["_nodes"] if n.get("k") == "Call" and (n.get("fn") or "").endswith("monch::tag") and peel(n["args"][0]).get("v") == "import"]
+    brace = []
+    for n in pj["_nodes"]:
+        if n.get("k") == "Binary" and n["op"] == "==" and any(peel(n[s_]).get("k") == "Lit" and peel(n[s_]).get("v") == "}" for s_ in ("l", "r")):
+            p_ = n["_p"]
+            if p_.get("k") == "If" and diverges(F, p_["then"]) and (not tags or may_reach(F, n, tags[0]) or n["id"] < tags[0]["id"]):
+                brace.append(n)
+    R.ob("C08-V", "a JSDoc type import is only recognised inside one `{...}` (the scan to `import` stops at `}`)", len(tags) == 1 and len(brace) >= 1,
+         "parse_jsdoc_dynamic_import no longer bails out at a closing brace before `import`: prose after a closed JSDoc type that mentions import(\"...\") is reported as a dependency", pj["file"])
+
     # ---------------- C08-A ------------------------------------------------
     forms = {}
     for fn in ("ast::dep::parse_import_attributes", "ast::dep::parse_import_attributes_from_object_lit", "ast::dep::parse_dynamic_import_attributes"):
